@@ -940,9 +940,13 @@ func postprocessACLParts(c *cmd, parts []string, wildcard bool) {
 	}
 	convObjectGroup := func() {
 		need(2)
-		name := parts[1]
-		parts[1] = "$REF"
-		c.ref = append(c.ref, name)
+		// Object-groups of IOS are not managed.
+		// Take name as part of command, not as reference.
+		if !wildcard {
+			name := parts[1]
+			parts[1] = "$REF"
+			c.ref = append(c.ref, name)
+		}
 		parts = parts[2:]
 	}
 	convProto := func() {
